@@ -71,13 +71,14 @@ func evalC14Token(w *fw.W, s, kind string) {
 	} else if !c14Admissible(s) {
 		return
 	}
+	// the public verdict first: the accessor below may panic where the public call (which may recover) does not
+	if b, f := lib.IsSQLi(s); b || f != "" {
+		w.Fail("false-positive", fmt.Sprintf("IsSQLi=(%v,%q)", b, f))
+		return
+	}
 	toks, _, _ := lib.VerifSQLTokens(s, fNone|fAnsi)
 	if len(toks) != 1 || toks[0].Category != want {
 		w.Fail("lexes-differently", fmt.Sprintf("%s %q lexes to %s, want a single %q", kind, s, fmtImplToksSQL(toks), want))
-		return
-	}
-	if b, f := lib.IsSQLi(s); b || f != "" {
-		w.Fail("false-positive", fmt.Sprintf("IsSQLi=(%v,%q)", b, f))
 		return
 	}
 	w.Traces(1)
